@@ -135,7 +135,7 @@ fn main() {
                             // so that the replay file is the reduced site
                             for (i, (site, r)) in chunk.iter().zip(res.iter()).enumerate() {
                                 if let c02::prog::SiteOutcome::Fail(sig, _) = r {
-                                    let full = format!("{}{sig}", c02::prog::Runner::sig_prefix(site));
+                                    let full = c02::prog::Runner::full_sig(site, sig);
                                     if !s.known().is_known("C02", &full) && shrunk.is_empty() {
                                         shrunk.push((b * per + i, runner.shrink(site, sig)));
                                     }
